@@ -236,6 +236,305 @@ impl Scenario for CommissionCrash {
     }
 }
 
+
+fn results(run: &FullRun, node: usize) -> Vec<(&'static str, u16, u64)> {
+    run.log
+        .iter()
+        .filter(|e| e.node == node)
+        .filter_map(|e| match &e.kind {
+            FullKind::Step { name, result: Some(r) } => Some((*name, *r, e.time)),
+            _ => None,
+        })
+        .collect()
+}
+
+/// C08: an administrator arms the fail-safe over its CASE session, changes its fabric's ACL, and
+/// the fail-safe ends in one of four ways: CommissioningComplete, time-out, forced expiry,
+/// restart of the device. Afterwards the ACL is the new one (committed, also across a further
+/// restart) or exactly the old one.
+pub struct AclUnderFailSafe {
+    pub faults: bool,
+}
+
+const EXTRA_SUBJECT: u64 = 0x0EAD_BEEF;
+
+impl Scenario for AclUnderFailSafe {
+    fn property(&self) -> &'static str {
+        "C08"
+    }
+    fn name(&self) -> &'static str {
+        if self.faults {
+            "acl-under-failsafe-faults"
+        } else {
+            "acl-under-failsafe"
+        }
+    }
+
+    fn run(&self, seed: u64) -> Outcome {
+        let ending = tape::choose(4); // 0 complete, 1 time-out, 2 forced expiry, 3 restart
+        let secs = 8 + tape::choose(20) as u16;
+        let pause = tape::choose(4) * 700;
+        let mut script = vec![
+            CtlStep::Commission { dev: 0 },
+            CtlStep::ReadOnOff { dev: 0 },
+            CtlStep::ArmFailSafeChecked { dev: 0, secs },
+            CtlStep::Sleep { ms: pause },
+            CtlStep::AclWrite { dev: 0, subject: EXTRA_SUBJECT },
+            CtlStep::Sleep { ms: pause },
+        ];
+        let mut crashes = Vec::new();
+        match ending {
+            0 => script.push(CtlStep::CommissioningCompleteCase { dev: 0 }),
+            1 => script.push(CtlStep::Sleep { ms: secs as u32 * 1000 + 3_000 }),
+            2 => script.push(CtlStep::ArmFailSafeChecked { dev: 0, secs: 0 }),
+            _ => {
+                // The commissioning takes well under 3 s of simulated time; the fail-safe is armed
+                // for at least 8 s: a crash 3.5-6 s into the run falls inside it
+                crashes.push(3_500_000 + tape::choose(25) as u64 * 100_000);
+                script.push(CtlStep::Sleep { ms: 12_000 });
+            }
+        }
+        script.push(CtlStep::Sleep { ms: 4_000 });
+        script.push(CtlStep::ReadOnOff { dev: 0 });
+        // A later restart must not change the picture
+        let late_restart = 60_000_000 + tape::choose(10) as u64 * 1_000_000;
+        crashes.push(late_restart);
+        script.push(CtlStep::SleepUntil { ms: 80_000 });
+        script.push(CtlStep::ReadOnOff { dev: 0 });
+
+        let net = if self.faults && tape::chance(500) {
+            UniformNet {
+                latency_us: 500,
+                jitter_us: 2000,
+                drop_permille: [20, 80][tape::choose(2) as usize],
+                dup_permille: 40,
+                hold_permille: 40,
+                hold_max_ms: 300,
+                ..Default::default()
+            }
+        } else {
+            UniformNet { latency_us: 1000, ..Default::default() }
+        };
+        let cfg = FullCfg {
+            n_devices: 1,
+            controllers: vec![CtlSpec { fabric_id: FABRIC_ID, node_id: CTL_NODE_ID, script, continue_on_error: true }],
+            handlers: 3,
+            net,
+            sched: SchedCfg {
+                nonfifo_permille: if self.faults { [0, 100, 300][tape::choose(3) as usize] } else { 0 },
+                max_polls: 3_000_000,
+                max_time: 2_000 * SEC,
+                ..Default::default()
+            },
+            limit_us: 1_000 * SEC,
+            kv_faults: vec![],
+            crashes,
+            restart_after_us: 300 * MS,
+            cancels: vec![],
+            calm_at_us: None,
+        };
+        // ACL of fabric 1 over time
+        let mut acl_series: Vec<(u64, Vec<String>, bool)> = Vec::new();
+        let run = drive_full_with(seed, cfg, &mut |t, states| {
+            if let Some(Some(st)) = states.first() {
+                if let Some(f) = st.fabrics.iter().find(|f| f.fab_idx == 1) {
+                    if acl_series.last().map(|(_, a, _)| a != &f.acl).unwrap_or(true) {
+                        acl_series.push((t, f.acl.clone(), st.snap.failsafe.armed));
+                    }
+                }
+            }
+        });
+        let mut out = Outcome::default();
+        common_counters(&run, &mut out);
+        let r = results(&run, 1);
+        let ok = |name: &str, nth: usize| r.iter().filter(|(n, _, _)| *n == name).nth(nth).map(|(_, c, _)| *c == 0xffff).unwrap_or(false);
+        let armed = ok("arm_failsafe_checked", 0);
+        let written = ok("acl_write", 0);
+        let has_extra = |acl: &Vec<String>| acl.iter().any(|e| e.contains(&format!("{}", EXTRA_SUBJECT)));
+        let final_acl = acl_series.last().map(|(_, a, _)| a.clone());
+        let describe = || {
+            format!(
+                "ending={} armed for {secs} s; steps {:?}; ACL of fabric 1 over time: {:?}",
+                ["CommissioningComplete", "time-out", "ArmFailSafe(0)", "restart"][ending as usize],
+                r.iter().filter(|(n, _, _)| *n != "sleep").map(|(n, c, t)| format!("{n}:{c:x}@{}", t / 1000)).collect::<Vec<_>>(),
+                acl_series.iter().map(|(t, a, armed)| format!("t={} armed={} entries={} extra={}", t / 1000, armed, a.len(), has_extra(a))).collect::<Vec<_>>()
+            )
+        };
+        if run.all_done && armed && written {
+            out.count("c08_acl_written_under_failsafe", 1);
+            let committed = match ending {
+                0 => ok("commissioning_complete_case", 0),
+                _ => false,
+            };
+            let ended_cleanly = match ending {
+                0 => committed,
+                2 => ok("arm_failsafe_checked", 1),
+                _ => true,
+            };
+            if ended_cleanly {
+                out.count(["c08_end_complete", "c08_end_timeout", "c08_end_forced", "c08_end_restart"][ending as usize], 1);
+                match &final_acl {
+                    Some(acl) => {
+                        if committed && !has_extra(acl) {
+                            out.violate("C08-committed-change-lost", describe());
+                        }
+                        if !committed && (has_extra(acl) || acl.len() != 1) {
+                            out.violate("C08-change-survives-failsafe-end", describe());
+                        }
+                    }
+                    None => out.violate("C08-fabric-lost", describe()),
+                }
+            }
+        } else {
+            out.count("runs_incomplete", 1);
+        }
+        out.nontrivial = armed && written;
+        out.state_sigs.push(ending as u64);
+        let ending_name = ["CommissioningComplete", "time-out", "ArmFailSafe(0)", "restart"][ending as usize];
+        out.sample = Some(json!({"ending": ending_name, "armed_secs": secs,
+            "steps": r.iter().filter(|(n, _, _)| *n != "sleep").map(|(n, c, t)| format!("{n}:{c:x}@{}ms", t / 1000)).collect::<Vec<_>>()}));
+        out
+    }
+}
+
+/// C08: while a commissioner holds a fail-safe armed over PASE (before AddNOC), the
+/// administrator of an existing fabric sends fail-safe commands over its CASE session: they are
+/// refused and change nothing.
+pub struct ForeignAdminDuringPaseFailSafe {
+    pub faults: bool,
+}
+
+impl Scenario for ForeignAdminDuringPaseFailSafe {
+    fn property(&self) -> &'static str {
+        "C08"
+    }
+    fn name(&self) -> &'static str {
+        if self.faults {
+            "foreign-admin-during-pase-failsafe-faults"
+        } else {
+            "foreign-admin-during-pase-failsafe"
+        }
+    }
+
+    fn run(&self, seed: u64) -> Outcome {
+        let what = tape::choose(3); // 0 ArmFailSafe(30), 1 CommissioningComplete, 2 ArmFailSafe(0)
+        let b_start = 8_000 + tape::choose(6) * 500;
+        let a_delay = 300 + tape::choose(30) * 400;
+        let mut a_script = vec![
+            CtlStep::Commission { dev: 0 },
+            CtlStep::OpenWindow { dev: 0, secs: 600 },
+            CtlStep::SleepUntil { ms: b_start + a_delay },
+        ];
+        a_script.push(match what {
+            0 => CtlStep::ArmFailSafeChecked { dev: 0, secs: 30 },
+            1 => CtlStep::CommissioningCompleteCase { dev: 0 },
+            _ => CtlStep::ArmFailSafeChecked { dev: 0, secs: 0 },
+        });
+        a_script.push(CtlStep::Sleep { ms: 2_000 });
+        a_script.push(CtlStep::ReadOnOff { dev: 0 });
+        let b_script = vec![
+            CtlStep::SleepUntil { ms: b_start },
+            // Establishing PASE arms the fail-safe for the commissioner
+            CtlStep::PaseAttempt { dev: 0, passcode: TEST_PASSCODE },
+            CtlStep::Sleep { ms: 30_000 },
+        ];
+        let net = if self.faults && tape::chance(500) {
+            UniformNet {
+                latency_us: 500,
+                jitter_us: 2000,
+                drop_permille: [20, 80][tape::choose(2) as usize],
+                dup_permille: 40,
+                hold_permille: 40,
+                hold_max_ms: 300,
+                ..Default::default()
+            }
+        } else {
+            UniformNet { latency_us: 1000, ..Default::default() }
+        };
+        let cfg = FullCfg {
+            n_devices: 1,
+            controllers: vec![
+                CtlSpec { fabric_id: FABRIC_ID, node_id: CTL_NODE_ID, script: a_script, continue_on_error: true },
+                CtlSpec { fabric_id: 2, node_id: CTL_NODE_ID + 1, script: b_script, continue_on_error: true },
+            ],
+            handlers: 3,
+            net,
+            sched: SchedCfg {
+                nonfifo_permille: if self.faults { [0, 100, 300][tape::choose(3) as usize] } else { 0 },
+                max_polls: 3_000_000,
+                max_time: 2_000 * SEC,
+                ..Default::default()
+            },
+            limit_us: 1_000 * SEC,
+            kv_faults: vec![],
+            crashes: vec![],
+            restart_after_us: 300 * MS,
+            cancels: vec![],
+            calm_at_us: None,
+        };
+        // Fail-safe context, window and PASE sessions over time
+        let mut series: Vec<(u64, bool, u8, bool, usize)> = Vec::new();
+        let run = drive_full_with(seed, cfg, &mut |t, states| {
+            if let Some(Some(st)) = states.first() {
+                let pase = st
+                    .snap
+                    .sessions
+                    .iter()
+                    .filter(|s| matches!(s.mode, rs_matter::transport::session::SessionMode::Pase { .. }) && !s.expired)
+                    .count();
+                let cur = (st.snap.failsafe.armed, st.snap.failsafe.fab_idx, st.window_open, pase);
+                if series.last().map(|l| (l.1, l.2, l.3, l.4) != cur).unwrap_or(true) {
+                    series.push((t, cur.0, cur.1, cur.2, cur.3));
+                }
+            }
+        });
+        let mut out = Outcome::default();
+        common_counters(&run, &mut out);
+        let a = results(&run, 1);
+        let b = results(&run, 2);
+        let pase_ok = b.iter().find(|(n, _, _)| *n == "pase_attempt").map(|(_, c, t)| (*c == 0xffff, *t));
+        let cmd = a
+            .iter()
+            .find(|(n, _, _)| *n == "arm_failsafe_checked" || *n == "commissioning_complete_case")
+            .map(|(n, c, t)| (*n, *c, *t));
+        let describe = || {
+            format!(
+                "foreign command {:?}; A {:?}; B {:?}; device (t ms, armed, fail-safe fabric, window open, PASE sessions): {:?}",
+                ["ArmFailSafe(30)", "CommissioningComplete", "ArmFailSafe(0)"][what as usize],
+                a.iter().filter(|(n, _, _)| *n != "sleep").map(|(n, c, t)| format!("{n}:{c:x}@{}", t / 1000)).collect::<Vec<_>>(),
+                b.iter().filter(|(n, _, _)| *n != "sleep").map(|(n, c, t)| format!("{n}:{c:x}@{}", t / 1000)).collect::<Vec<_>>(),
+                series.iter().map(|(t, ar, f, w, p)| (t / 1000, *ar, *f, *w, *p)).collect::<Vec<_>>()
+            )
+        };
+        if let (true, Some((true, t_pase)), Some((_, code, t_cmd))) = (run.all_done, pase_ok, cmd) {
+            // The command arrived while the PASE-armed fail-safe was certainly still running
+            // (it lasts 60 s from the PASE establishment)
+            if t_cmd > t_pase && t_cmd < t_pase + 40 * SEC {
+                out.count("c08_foreign_commands_during_pase_failsafe", 1);
+                if code == 0xffff {
+                    out.violate("C08-foreign-context-accepted", describe());
+                }
+                // Nothing changed: still armed for "no fabric", window open, PASE session alive,
+                // from the PASE establishment until 5 s after the command
+                let disturbed = series.iter().any(|(t, armed, f, w, p)| {
+                    *t > t_pase + 200 * MS && *t < t_cmd + 5 * SEC && (!*armed || *f != 0 || !*w || *p == 0)
+                });
+                if disturbed {
+                    out.violate("C08-foreign-command-changed-failsafe", describe());
+                }
+            }
+        } else {
+            out.count("runs_incomplete", 1);
+        }
+        out.nontrivial = pase_ok.map(|p| p.0).unwrap_or(false);
+        out.state_sigs.push(what as u64);
+        let what_name = ["ArmFailSafe(30)", "CommissioningComplete", "ArmFailSafe(0)"][what as usize];
+        out.sample = Some(json!({"foreign_command": what_name,
+            "A": a.iter().filter(|(n, _, _)| *n != "sleep").map(|(n, c, t)| format!("{n}:{c:x}@{}ms", t / 1000)).collect::<Vec<_>>()}));
+        out
+    }
+}
+
 pub fn defs() -> Vec<PropertyDef> {
     let mk = |which: Which, id: &'static str| PropertyDef {
         id,
@@ -262,5 +561,15 @@ pub fn defs() -> Vec<PropertyDef> {
         stubbed: "network, clock, RNG, KV back-end (SimKv with fault injection), mDNS (stub resolver), device attestation (in-crate test DAC), application cluster (test OnOff)",
         budget_s: (60, 600),
     };
-    vec![mk(Which::C08, "C08"), mk(Which::C11, "C11")]
+    let mut c08 = mk(Which::C08, "C08");
+    for (sc, w, ff) in [
+        (Box::new(AclUnderFailSafe { faults: false }) as Box<dyn Scenario>, 2, true),
+        (Box::new(AclUnderFailSafe { faults: true }), 2, false),
+        (Box::new(ForeignAdminDuringPaseFailSafe { faults: false }), 2, true),
+        (Box::new(ForeignAdminDuringPaseFailSafe { faults: true }), 2, false),
+    ] {
+        c08.families.push(Family { scenario: sc, weight: w, fault_free: ff });
+    }
+    c08.budget_s = (100, 900);
+    vec![c08, mk(Which::C11, "C11")]
 }
